@@ -53,6 +53,8 @@ type Conn struct {
 
 	parked bool // server blocked in Read, nothing deliverable
 
+	readDeadline, writeDeadline time.Time
+
 	out      []byte
 	outMark  int
 	writeLen []int // length of every successful Write call
@@ -188,9 +190,33 @@ func (c *Conn) Close() error {
 
 func (c *Conn) LocalAddr() net.Addr                { return c.Local }
 func (c *Conn) RemoteAddr() net.Addr               { return c.Remote }
-func (c *Conn) SetDeadline(t time.Time) error      { return nil }
-func (c *Conn) SetReadDeadline(t time.Time) error  { return nil }
-func (c *Conn) SetWriteDeadline(t time.Time) error { return nil }
+// Deadlines are recorded, never enforced (no wall clock in verdicts): a deadline
+// that is still armed at quiescence is a structural fact a check can judge.
+func (c *Conn) SetDeadline(t time.Time) error {
+	c.mu.Lock()
+	c.readDeadline, c.writeDeadline = t, t
+	c.mu.Unlock()
+	return nil
+}
+func (c *Conn) SetReadDeadline(t time.Time) error {
+	c.mu.Lock()
+	c.readDeadline = t
+	c.mu.Unlock()
+	return nil
+}
+func (c *Conn) SetWriteDeadline(t time.Time) error {
+	c.mu.Lock()
+	c.writeDeadline = t
+	c.mu.Unlock()
+	return nil
+}
+
+// Deadlines returns the currently armed read and write deadlines (zero = none).
+func (c *Conn) Deadlines() (read, write time.Time) {
+	c.mu.Lock()
+	defer c.mu.Unlock()
+	return c.readDeadline, c.writeDeadline
+}
 
 // ---- harness (client) side -------------------------------------------------
 
